@@ -6,6 +6,8 @@
 From Coq Require Import Permutation.
 From Curies.model Require Import Str PyData Trie Conv Query Val Answer Spec CheckQ Mutate Reconcile.
 From Curies.proofs Require Import StrFacts IndexFacts QueryFacts C04Facts MutateFacts ReconcileFacts CurieFacts.
+From Curies.model Require Import CheckR.
+From Curies.proofs Require Import PModelR11.
 
 (* either one of the documented errors, or a strict converter of the same size whose records keep exactly their URI
    side, in which every CURIE prefix known before is still known *)
@@ -76,3 +78,11 @@ Proof.
   eexists. split; [vm_compute; reflexivity|]. split; [eexists; split; vm_compute; reflexivity|]. split; [vm_compute; reflexivity|].
   eexists; split; vm_compute; reflexivity.
 Qed.
+
+(* the executable predicate of the run (documented rejection, or: consistent strict result of the same size, URI side of every
+   record kept, nothing lost, nothing invented, applicable pairs applied, clashing pairs skipped) accepts the model's own
+   observation on every valid case *)
+Theorem C11_P_model : forall k : rcase, valid_r k = true ->
+  (match rc_op k with DRemapCurie _ => True | _ => False end) -> P_C11 k (model_robs k) = true.
+Proof. exact P_C11_model. Qed.
+Print Assumptions C11_P_model.
